@@ -314,11 +314,18 @@ namespace pika {
 
         stop_source& operator=(stop_source const& rhs) noexcept
         {
-            state_ = rhs.state_;
-            if (state_) state_->add_source_count();
+            // copy and swap: the temporary releases the source count of the old state
+            stop_source tmp(rhs);
+            swap(tmp);
             return *this;
         }
-        stop_source& operator=(stop_source&&) noexcept = default;
+        stop_source& operator=(stop_source&& rhs) noexcept
+        {
+            // move and swap: the temporary releases the source count of the old state
+            stop_source tmp(std::move(rhs));
+            swap(tmp);
+            return *this;
+        }
 
         // Effects: Releases ownership of the stop state, if any.
         ~stop_source()
